@@ -44,9 +44,14 @@ func firstByte(h []byte) []byte {
 	return o
 }
 
-// block ids: nil, A, and A′ differing from A in exactly one component (for
-// the hashes: in exactly one byte, the last one, so that a canonical form that
-// abbreviates a hash is caught)
+// block ids: every combination of empty / non-empty components (hash, parts
+// total, parts hash — 8 ids, among them the nil id, the full id A and the ids
+// with an empty hash and a non-zero parts header), plus A′ differing from A
+// in exactly one component (for the hashes: in exactly one byte, the last one,
+// so that a canonical form that abbreviates a hash is caught).  The quick grid
+// is a prefix of the thorough one, so indices are tier-independent.
+const quickBlockIDs = 11
+
 func blockIDGrid(thorough bool) []types.BlockID {
 	a := types.BlockID{Hash: hashOf(0xA1), PartsHeader: types.PartSetHeader{Total: 3, Hash: hashOf(0xB1)}}
 	g := []types.BlockID{
@@ -55,28 +60,39 @@ func blockIDGrid(thorough bool) []types.BlockID {
 		{Hash: lastByte(a.Hash), PartsHeader: a.PartsHeader},
 		{Hash: a.Hash, PartsHeader: types.PartSetHeader{Total: 4, Hash: a.PartsHeader.Hash}},
 		{Hash: a.Hash, PartsHeader: types.PartSetHeader{Total: 3, Hash: lastByte(a.PartsHeader.Hash)}},
+		// the remaining empty/non-empty combinations
+		{Hash: a.Hash},               // hash only, zero parts header
+		{PartsHeader: a.PartsHeader}, // empty hash, full parts header
+		{Hash: a.Hash, PartsHeader: types.PartSetHeader{Total: 3}},                 // empty parts hash
+		{Hash: a.Hash, PartsHeader: types.PartSetHeader{Hash: a.PartsHeader.Hash}}, // zero parts total
+		{PartsHeader: types.PartSetHeader{Total: 3}},                               // parts total only
+		{PartsHeader: types.PartSetHeader{Hash: a.PartsHeader.Hash}},               // parts hash only
+	}
+	if len(g) != quickBlockIDs {
+		panic("blockIDGrid: quick prefix length")
 	}
 	if thorough {
 		g = append(g,
-			types.BlockID{Hash: a.Hash},               // hash only, zero parts header
-			types.BlockID{PartsHeader: a.PartsHeader}, // parts only
 			types.BlockID{Hash: a.PartsHeader.Hash, PartsHeader: types.PartSetHeader{Total: 3, Hash: a.Hash}}, // hashes swapped
-			types.BlockID{Hash: a.Hash, PartsHeader: types.PartSetHeader{Total: 0, Hash: a.PartsHeader.Hash}},
-			types.BlockID{Hash: a.Hash, PartsHeader: types.PartSetHeader{Total: 3}},
 			types.BlockID{Hash: a.Hash[:19], PartsHeader: a.PartsHeader},
 			types.BlockID{Hash: firstByte(a.Hash), PartsHeader: a.PartsHeader},
 			types.BlockID{Hash: a.Hash, PartsHeader: types.PartSetHeader{Total: 3, Hash: firstByte(a.PartsHeader.Hash)}},
 			types.BlockID{Hash: a.Hash, PartsHeader: types.PartSetHeader{Total: 1<<32 + 3, Hash: a.PartsHeader.Hash}},
+			// empty hash, parts headers differing from A's in one component
+			types.BlockID{PartsHeader: types.PartSetHeader{Total: 4, Hash: a.PartsHeader.Hash}},
+			types.BlockID{PartsHeader: types.PartSetHeader{Total: 3, Hash: lastByte(a.PartsHeader.Hash)}},
 		)
 	}
 	return g
 }
 
+// parts headers: every combination of empty / non-empty (total, hash), plus
+// one-component variants of p
 func partsGrid(thorough bool) []types.PartSetHeader {
 	p := types.PartSetHeader{Total: 3, Hash: hashOf(0xC1)}
-	g := []types.PartSetHeader{{}, p, {Total: 4, Hash: p.Hash}, {Total: 3, Hash: lastByte(p.Hash)}}
+	g := []types.PartSetHeader{{}, p, {Total: 4, Hash: p.Hash}, {Total: 3, Hash: lastByte(p.Hash)}, {Total: 3}, {Hash: p.Hash}}
 	if thorough {
-		g = append(g, types.PartSetHeader{Total: 3}, types.PartSetHeader{Hash: p.Hash}, types.PartSetHeader{Total: 3, Hash: firstByte(p.Hash)})
+		g = append(g, types.PartSetHeader{Total: 3, Hash: firstByte(p.Hash)})
 	}
 	return g
 }
@@ -136,7 +152,9 @@ func sbGrid(thorough bool) []sbVal {
 		for _, h := range heights {
 			for _, r := range rounds {
 				for _, pr := range pols {
-					for b := 0; b < nb && b < 5; b++ {
+					// POL block ids: the quick set (all empty/non-empty combinations and
+					// the one-component variants) in both tiers
+					for b := 0; b < nb && b < quickBlockIDs; b++ {
 						for p := 0; p < np; p++ {
 							out = append(out, sbVal{Kind: "proposal", ChainID: c, Height: h, Round: r, Block: b, Parts: p, POL: pr})
 						}
